@@ -158,7 +158,7 @@ func (c *pxContext) ParseType(str string) px.Type {
 	if pt, ok := t.(px.ResolvableType); ok {
 		return pt.Resolve(c)
 	}
-	panic(fmt.Errorf(`expression "%s" does no resolve to a Type`, str))
+	panic(px.Error(px.Failure, issue.H{`message`: fmt.Sprintf(`expression "%s" does no resolve to a Type`, str)}))
 }
 
 func (c *pxContext) Reflector() px.Reflector {
